@@ -150,9 +150,9 @@ def check_span(what, name, span, main_src):
     return None
 
 
-def analysis_spans(src, use_async=False):
+def analysis_spans(src, use_async=False, the_env=None):
     """[(what, name, Span)] for everything static analysis and tag analysis report."""
-    t = env().from_string(src, name="main")
+    t = (the_env or env()).from_string(src, name="main")
     a = run_async(t.analyze_async()) if use_async else t.analyze()
     out = []
     for what, d in (("variable", a.variables), ("global", a.globals), ("local", a.locals)):
@@ -293,6 +293,36 @@ Definition spans_eqb (a : res (list (str * N))) (b : list (str * N)) : bool :=
   end."""
 
 
+SNIPPET_TEMPLATES = [
+    # inline snippets (liquid.extra SnippetTag, registered by hand): what is reported inside a snippet body lives in the template
+    # that DEFINES the snippet
+    "{% snippet card %}\n  {{ item | upcase }}{% assign z = item %}\n{% endsnippet %}{% render card, item: a %}|{% render card, item: b.c %}",
+    "x\n{% snippet row %}{% for i in xs %}{{ i | append: s }}{% endfor %}{{ n_1 }}{% endsnippet %}\n{% for r in rows %}{% render row, xs: r %}{% endfor %}",
+    "{% snippet a %}{{ p }}{% endsnippet %}{% snippet b %}{{ q | upcase }}{% render a, p: q %}{% endsnippet %}{% render b, q: d.e.f %}{% render a, p: 1 %}",
+]
+
+
+def snippet_family(ck: Check, report) -> None:
+    from liquid import DictLoader
+    from liquid.extra.tags.snippet_tag import SnippetTag
+
+    e2 = G.make_env(G.DEFAULT, comments=True, loader=DictLoader(PARTIALS))
+    e2.add_tag(SnippetTag)
+    for src in SNIPPET_TEMPLATES:
+        for use_async in (False, True):
+            try:
+                spans = analysis_spans(src, use_async, e2)
+            except Exception as e:  # noqa: BLE001
+                ck.count("snippet-rejected:" + classify_exc(e))
+                continue
+            ck.note_case(("snippet", src, use_async), nontrivial=bool(spans))
+            ck.count("snippet-spans", len(spans))
+            for what, name, sp in spans:
+                problem = check_span(what, name, sp, src)
+                if problem:
+                    report(f"c20-span:{what}", f"{src!r}: {problem}", {"type": "snippet-spans", "source": src, "what": what, "async": use_async})
+
+
 def run(ck: Check) -> None:
     ck.rule = (
         "generated multi-line templates (output statements with nested paths and filter chains, assign/capture/if/elsif/else/for/"
@@ -331,6 +361,8 @@ def run(ck: Check) -> None:
         if sig not in reported and len(reported) < 12:
             reported.add(sig)
             ck.violation("impl-violation", sig, what, data)
+
+    snippet_family(ck, report)
 
     def add_lc(src, index, got):
         if len(lc_cases) < (3000 if ck.quick else 30000) and len(src) <= 160:
@@ -459,6 +491,23 @@ def run(ck: Check) -> None:
 
 
 def replay(data) -> int:
+    if data["case"].get("type") == "snippet-spans":
+        found = []
+        saved = SNIPPET_TEMPLATES[:]
+        SNIPPET_TEMPLATES[:] = [data["case"]["source"]]
+
+        class _Ck:
+            def note_case(self, *a, **k):
+                pass
+
+            def count(self, *a, **k):
+                pass
+        snippet_family(_Ck(), lambda sig, what, d: found.append(what))
+        SNIPPET_TEMPLATES[:] = saved
+        for w in found:
+            print(w)
+        print(("VIOLATION reproduced" if found else "not reproduced") + f" property={data['property']}")
+        return 1 if found else 0
     case = data["case"]
     src = case.get("source")
     if case.get("type") == "error":
